@@ -308,6 +308,72 @@ def check_stable_solve(run, A):
                                  and all(any(c.op == 'nondet' and c.args[0] == 'try' for c, _ in e.guards if True) for e in plain))
     run.check(ok and per_matrix, 'LOOP', 'stable_solve: per-matrix fallback is index-local', fn.loc(L.node), f'{len(solves)} per-matrix solves',
               f'fallback loop is not index-local ({"; ".join(sorted(set(why)))}); per-matrix try/except around lstsq: {per_matrix}', construct=f'LOOP::{q}::index-local')
+    # the loop runs over the FLAT index of the leading axes: whatever it indexes with that index (both operands, the result buffer) is a stack flattened to 3-D
+    def flattened(t, depth=0):
+        """True / False / None (not recognised)"""
+        for _ in range(30):
+            t0 = t
+            while isinstance(t0, T) and t0.op in ('mu', 'store', 'refine'):
+                t0 = t0.args[0]
+            t0 = strip_views(t0)
+            while isinstance(t0, T) and t0.op in ('mu', 'store', 'refine'):
+                t0 = strip_views(t0.args[0])
+            if not isinstance(t0, T):
+                return None
+            if t0.op == 'param':
+                return False
+            if t0.op == 'gamma':
+                alts = [flattened(x, depth + 1) for x in (t0.args[1], t0.args[2])] if depth < 6 else [None]
+                return None if None in alts else all(alts)
+            n, pos, kw = call_parts(t0)
+            if n is None:
+                return None
+            if is_call_to(t0, 'numpy.zeros_like', 'numpy.empty_like', 'numpy.ones_like', 'numpy.asarray', 'numpy.array', 'numpy.ascontiguousarray', 'numpy.copy'):
+                t = pos[0]
+                continue
+            if is_call_to(t0, 'numpy.reshape'):
+                shp = list(pos[1:]) if (n == 'method:reshape' and len(pos) > 2) else [call_arg(t0, 1, 'newshape')]
+                if len(shp) == 1 and shp[0] is not None and strip_views(shp[0]).op in ('tuple', 'list'):
+                    shp = list(strip_views(shp[0]).args[0])
+                if len(shp) == 1 and shp[0] is not None and isinstance(const_val(strip_views(shp[0])), tuple):
+                    return len(const_val(strip_views(shp[0]))) == 3
+                length = 0
+                for x in shp:
+                    if x is None:
+                        return None
+                    x0 = strip_views(x) if x.op != 'star' else x
+                    if x0.op == 'star':
+                        inner = strip_views(x0.args[0])
+                        # *shape[-2:]
+                        if inner.op == 'sub' and strip_views(inner.args[1]).op == 'slice' and const_val(strip_views(inner.args[1]).args[0]) == -2 \
+                                and const_val(strip_views(inner.args[1]).args[1]) is None:
+                            length += 2
+                        else:
+                            return None
+                    else:
+                        length += 1
+                return length == 3
+            return None
+        return None
+    indexed = []
+    for e in solves:
+        for a in (call_arg(e.term, 0), call_arg(e.term, 1)):
+            r_ = loop_role(a, L)
+            if r_ is not None and r_[0] == 'slice':          # X[i] / the element of `for x in X` / of zip(.., X, ..)
+                indexed.append(('operand', r_[2], e))
+    for e in stores:
+        indexed.append(('result buffer', e.term.args[0], e))
+    n_flat = 0
+    for what, base, e in indexed:
+        f_ = flattened(base)
+        if f_ is None:
+            run.unresolved('LOOP', f'stable_solve: the {what} indexed by the flat loop index is a stack flattened to 3-D', fn.loc(e.node), 'the array is not traced back to a reshape')
+            continue
+        n_flat += 1
+        run.check(f_, 'LOOP', f'stable_solve: the {what} indexed by the flat loop index is a stack flattened to 3-D', fn.loc(e.node), '',
+                  f'the {what} reaches the fallback loop in the caller\'s shape: with more than one leading axis the flat index runs over the first axis only (wrong slices / IndexError)',
+                  construct=f'LOOP::{q}::flattened::{what}')
+    run.floor('stable_solve: arrays indexed by the flat loop index', n_flat, 6)
     # fast path: the whole stack is tried first
     first = [e for e in g.events if e.kind == 'call' and call_parts(e.term)[0] == 'numpy.linalg.solve' and not e.loops]
     run.check(bool(first), 'LOOP', 'stable_solve: batched solve is tried first', fn.loc(), '', 'no batched np.linalg.solve outside the loop', construct=f'LOOP::{q}::fast-path')
@@ -358,6 +424,8 @@ def check(run):
     run.floor('C13 data reductions in per-index helpers', _n, 5)
     from ..opt import check_optional_truthiness, check_params_reach, check_forwarding, check_stale_loop_variables, check_argument_names, check_none_use
     check_none_use(run, A, ('pb_bss.extraction.beamformer', 'pb_bss.math.solve'))
+    from ..opt import check_dropped_sanitisers
+    check_dropped_sanitisers(run, A, ('pb_bss.extraction.beamformer', 'pb_bss.math.solve'))
     check_argument_names(run, A, ('pb_bss.extraction.beamformer', 'pb_bss.math.solve'))
     check_stale_loop_variables(run, A, ('pb_bss.extraction.beamformer', 'pb_bss.math.solve'))
     check_forwarding(run, A, ('pb_bss.extraction.beamformer', 'pb_bss.math.solve'))
